@@ -884,3 +884,182 @@ M('c17-send-media-merged-literal-overwritten', 'C17', 'R10', 'falcon/asgi/ws.py'
 
         await self._send(event)
 """)
+
+
+# ------------------------------------------------------------------ "refactoring + break" (second preserving wave, k2-c17-*)
+# Each mutant is a behaviour-preserving rewrite the rules now read - a private module-level literal, an optional parameter nobody
+# passes, a boolean local computed from the close code, a helper of the class / module handed the tracked value, a local bound
+# once - plus ONE break.  The rewrites alone are silent (verified by hand with --root, see the fixer report).
+_K2_CONSTS_OLD = "_CLIENT_DISCONNECTED_CAUSE = re.compile(r'received (\\d\\d\\d\\d)')\n"
+# k2-c17-3: (bytes, bytearray, memoryview) hoisted into _BINARY_PAYLOAD_TYPES; break: str slips into the constant
+M2('c17-k2-binary-types-constant-admits-str', 'C17', None, [
+    {'file': WS, 'old': _K2_CONSTS_OLD, 'new': _K2_CONSTS_OLD + "_BINARY_PAYLOAD_TYPES = (bytes, bytearray, memoryview, str)\n"},
+    {'file': WS, 'old': "        if not isinstance(payload, (bytes, bytearray, memoryview)):", 'new': "        if not isinstance(payload, _BINARY_PAYLOAD_TYPES):"}])
+# ... break: the constant is bound twice (the second binding wins at import time)
+M2('c17-k2-binary-types-constant-rebound', 'C17', None, [
+    {'file': WS, 'old': _K2_CONSTS_OLD,
+     'new': _K2_CONSTS_OLD + "_BINARY_PAYLOAD_TYPES = (bytes, bytearray, memoryview)\n_BINARY_PAYLOAD_TYPES = (object,)\n"},
+    {'file': WS, 'old': "        if not isinstance(payload, (bytes, bytearray, memoryview)):", 'new': "        if not isinstance(payload, _BINARY_PAYLOAD_TYPES):"}])
+# k2-c17-4: _ws_cleanup_on_error(self, ws, code=None), `if code is None: code = <configured>`; breaks: inverted test / a caller passes 1000
+_K2_CLEANUP_SIG = "    async def _ws_cleanup_on_error(self, ws: WebSocket) -> None:"
+_K2_CLEANUP_SIG_NEW = "    async def _ws_cleanup_on_error(self, ws: WebSocket, code: Optional[int] = None) -> None:"
+_K2_CLEANUP_CLOSE = "            await ws.close(self.ws_options.error_close_code)\n"
+M2('c17-k2-cleanup-optional-code-inverted-default', 'C17', 'R3', [
+    {'file': APP, 'old': _K2_CLEANUP_SIG, 'new': _K2_CLEANUP_SIG_NEW},
+    {'file': APP, 'old': _K2_CLEANUP_CLOSE,
+     'new': "            if code is not None:\n                code = self.ws_options.error_close_code\n\n            await ws.close(code)\n"}])
+M2('c17-k2-cleanup-optional-code-passed-by-a-caller', 'C17', 'R3', [
+    {'file': APP, 'old': _K2_CLEANUP_SIG, 'new': _K2_CLEANUP_SIG_NEW},
+    {'file': APP, 'old': _K2_CLEANUP_CLOSE,
+     'new': "            if code is None:\n                code = self.ws_options.error_close_code\n\n            await ws.close(code)\n"},
+    {'file': APP, 'old': "        elif ws:\n            await self._ws_cleanup_on_error(ws)\n",
+     'new': "        elif ws:\n            await self._ws_cleanup_on_error(ws, 1000)\n"}])
+M2('c17-k2-cleanup-optional-code-default-1000', 'C17', 'R3', [
+    {'file': APP, 'old': _K2_CLEANUP_SIG, 'new': "    async def _ws_cleanup_on_error(self, ws: WebSocket, code: Optional[int] = 1000) -> None:"},
+    {'file': APP, 'old': _K2_CLEANUP_CLOSE,
+     'new': "            if code is None:\n                code = self.ws_options.error_close_code\n\n            await ws.close(code)\n"}])
+# k2-c17-1: sequential raising guards + boolean local `reserved`; breaks: boundary, wrong polarity of the second range
+_K2_VALIDATION = """        if code is None:
+            code = WSCloseCode.NORMAL
+        elif not isinstance(code, int):
+            raise ValueError('code must be an int')
+        elif code < 1000:
+            raise ValueError('Invalid close code. The value must be >= 1000')
+        elif 1015 <= code <= 1999 or 1004 <= code <= 1006:
+            raise ValueError('Invalid close code. Only unreserved codes may be used.')
+"""
+_K2_GUARDS = """        if code is None:
+            code = WSCloseCode.NORMAL
+        else:
+            if not isinstance(code, int):
+                raise ValueError('code must be an int')
+
+            if code < 1000:
+                raise ValueError('Invalid close code. The value must be >= 1000')
+
+            reserved = 1015 <= code and code <= 1999
+            if not reserved:
+                reserved = 1004 <= code and code <= 1006
+
+            if reserved:
+                raise ValueError('Invalid close code. Only unreserved codes may be used.')
+"""
+M('c17-k2-reserved-flag-upper-bound-1998', 'C17', 'R4', WS, _K2_VALIDATION, _K2_GUARDS.replace('code <= 1999', 'code <= 1998'))
+M('c17-k2-reserved-flag-second-range-overwrites', 'C17', 'R4', WS, _K2_VALIDATION,
+  _K2_GUARDS.replace("            if not reserved:\n                reserved = 1004", "            if reserved:\n                reserved = 1004"))
+M('c17-k2-reserved-flag-or-for-and', 'C17', None, WS, _K2_VALIDATION, _K2_GUARDS.replace('1004 <= code and code <= 1006', '1004 <= code or code <= 1006'))
+# the validation moved into a helper that is handed the code
+_K2_VALIDATE_HELPER = """def _validate_close_code(code):
+    if code is None:
+        return WSCloseCode.NORMAL
+    if not isinstance(code, int):
+        raise ValueError('code must be an int')
+    if code < 1000:
+        raise ValueError('Invalid close code. The value must be >= 1000')
+    if 1015 <= code <= 1999 or 1004 <= code <= 1006:
+        raise ValueError('Invalid close code. Only unreserved codes may be used.')
+    return code
+
+
+class WebSocket:
+"""
+M2('c17-k2-validate-helper-rejects-1000', 'C17', 'R4', [
+    {'file': WS, 'old': "class WebSocket:\n", 'new': _K2_VALIDATE_HELPER.replace('if code < 1000:', 'if code <= 1000:')},
+    {'file': WS, 'old': _K2_VALIDATION, 'new': "        code = _validate_close_code(code)\n"}])
+M2('c17-k2-validate-helper-result-dropped', 'C17', 'R4', [
+    {'file': WS, 'old': "class WebSocket:\n", 'new': _K2_VALIDATE_HELPER},
+    {'file': WS, 'old': _K2_VALIDATION, 'new': "        _validate_close_code(code)\n"}])
+M2('c17-k2-reserved-predicate-helper-misses-1006', 'C17', 'R4', [
+    {'file': WS, 'old': "class WebSocket:\n",
+     'new': "def _is_reserved(code):\n    return 1015 <= code <= 1999 or 1004 <= code <= 1005\n\n\nclass WebSocket:\n"},
+    {'file': WS, 'old': "        elif 1015 <= code <= 1999 or 1004 <= code <= 1006:", 'new': "        elif _is_reserved(code):"}])
+# send_data: type check + snapshot moved into `_as_bytes(payload)`
+_K2_SEND_DATA = """        if not isinstance(payload, (bytes, bytearray, memoryview)):
+            raise TypeError('payload must be a byte string')
+
+        await self._send(
+            {
+                'type': EventType.WS_SEND,
+                'bytes': bytes(payload),
+            }
+        )"""
+_K2_SEND_DATA_NEW = """        await self._send(
+            {
+                'type': EventType.WS_SEND,
+                'bytes': _as_bytes(payload),
+            }
+        )"""
+M2('c17-k2-as-bytes-helper-without-check', 'C17', 'R5', [
+    {'file': WS, 'old': "class WebSocket:\n", 'new': "def _as_bytes(payload):\n    return bytes(payload)\n\n\nclass WebSocket:\n"},
+    {'file': WS, 'old': _K2_SEND_DATA, 'new': _K2_SEND_DATA_NEW}])
+M2('c17-k2-as-bytes-helper-without-snapshot', 'C17', 'R10', [
+    {'file': WS, 'old': "class WebSocket:\n",
+     'new': "def _as_bytes(payload):\n    if not isinstance(payload, (bytes, bytearray, memoryview)):\n        raise TypeError('payload must be a byte string')\n"
+            "    return payload\n\n\nclass WebSocket:\n"},
+    {'file': WS, 'old': _K2_SEND_DATA, 'new': _K2_SEND_DATA_NEW}])
+# an inert optional parameter whose DEFAULT switches the guard off
+M2('c17-k2-require-accepted-inert-flag-default-true', 'C17', 'R1', [
+    {'file': WS, 'old': "    def _require_accepted(self) -> None:", 'new': "    def _require_accepted(self, _allow_closed: bool = True) -> None:"},
+    {'file': WS, 'old': "        elif self._state == _WebSocketState.CLOSED:\n            raise errors.WebSocketDisconnected(self._close_code)\n\n    def _translate",
+     'new': "        elif self._state == _WebSocketState.CLOSED and not _allow_closed:\n            raise errors.WebSocketDisconnected(self._close_code)\n\n    def _translate"}])
+# the fallback marker read through a local / a module constant
+M('c17-k2-cleanup-message-local-not-lowered', 'C17', 'R3', APP,
+  "            if 'invalid close code' in str(ex).lower():", "            message = str(ex)\n            if 'invalid close code' in message:")
+M2('c17-k2-cleanup-marker-constant-wrong-text', 'C17', 'R3', [
+    {'file': APP, 'old': "_FALLBACK_WS_ERROR_CODE = 3011\n", 'new': "_FALLBACK_WS_ERROR_CODE = 3011\n_INVALID_CLOSE_CODE_MARKER = 'invalid code'\n"},
+    {'file': APP, 'old': "            if 'invalid close code' in str(ex).lower():", 'new': "            if _INVALID_CLOSE_CODE_MARKER in str(ex).lower():"}])
+# the status property with a snapshot local, wrong connective
+M('c17-k2-closed-property-snapshot-and-for-or', 'C17', 'R1', WS,
+  "        return (\n            self._state == _WebSocketState.CLOSED\n            or self._buffered_receiver.client_disconnected\n        )",
+  "        disconnected = self._buffered_receiver.client_disconnected\n        return self._state == _WebSocketState.CLOSED and disconnected",
+  also=('C18',))
+# the serializer through a local bound once, wrong handler
+M('c17-k2-send-media-serializer-local-of-other-handler', 'C17', 'R10', WS,
+  "            await self._send(\n                {\n                    'type': EventType.WS_SEND,\n                    'text': self._mh_text_serialize(media),\n                }\n            )",
+  "            serialize = self._mh_bin_serialize\n            await self._send(\n                {\n                    'type': EventType.WS_SEND,\n"
+  "                    'text': serialize(media),\n                }\n            )")
+# the close of an HTTP error made by a module-level helper handed the socket and the status
+_K2_ERR_OLD = """            code = http_status_to_ws_code(error.status_code)
+            falcon._logger.error(
+                '[FALCON] HTTPError %s raised while handling WebSocket. '
+                'Closing with code %s',
+                error,
+                code,
+            )
+            await ws.close(code)"""
+_K2_ERR_NEW = """            code = await _close_with_status(ws, error.status_code)
+            falcon._logger.error(
+                '[FALCON] HTTPError %s raised while handling WebSocket. '
+                'Closing with code %s',
+                error,
+                code,
+            )"""
+M2('c17-k2-close-with-status-helper-fixed-code', 'C17', 'R3', [
+    {'file': APP, 'old': "class App(falcon.app.App):\n",
+     'new': "async def _close_with_status(ws, status_code):\n    code = http_status_to_ws_code(status_code)\n    await ws.close(1011)\n    return code\n\n\n"
+            "class App(falcon.app.App):\n"},
+    {'file': APP, 'old': _K2_ERR_OLD, 'new': _K2_ERR_NEW}])
+M2('c17-k2-close-with-status-helper-skips-closed-socket', 'C17', 'R3', [
+    {'file': APP, 'old': "class App(falcon.app.App):\n",
+     'new': "async def _close_with_status(ws, status_code):\n    code = http_status_to_ws_code(status_code)\n    if not ws.closed:\n        await ws.close(code)\n"
+            "    return code\n\n\nclass App(falcon.app.App):\n"},
+    {'file': APP, 'old': _K2_ERR_OLD, 'new': _K2_ERR_NEW}], also=('C18',))
+# an optional parameter of _handle_websocket that nobody passes; its default skips the close
+M2('c17-k2-handle-websocket-inert-flag-default-false', 'C17', 'R3', [
+    {'file': APP, 'old': "        self, ver: str, scope: Dict[str, Any], receive: AsgiReceive, send: AsgiSend\n    ) -> None:\n        first_event = await receive()",
+     'new': "        self, ver: str, scope: Dict[str, Any], receive: AsgiReceive, send: AsgiSend,\n        _close_on_return: bool = False,\n    ) -> None:\n"
+            "        first_event = await receive()"},
+    {'file': APP, 'old': "            await on_websocket(req, web_socket, **params)\n            await web_socket.close()",
+     'new': "            await on_websocket(req, web_socket, **params)\n            if _close_on_return:\n                await web_socket.close()"}], also=('C18',))
+# the raw send through a local bound once; the close event is sent twice, the second time in state CLOSED
+M('c17-k2-raw-send-alias-close-event-twice', 'C17', 'R1', WS,
+  "        await self._asgi_send(response)\n\n        self._state = _WebSocketState.CLOSED\n        self._close_code = code",
+  "        send = self._asgi_send\n        self._state = _WebSocketState.CLOSED\n        await send(response)\n        await send(response)\n        self._close_code = code")
+# the spec-version gate through a local bound once - to the wrong capability
+M('c17-k2-reason-gate-local-of-other-capability', 'C17', 'R4', WS,
+  "        if reason and self._supports_reason:  # pragma: no py311 cover",
+  "        supported = self._supports_accept_headers\n        if reason and supported:  # pragma: no py311 cover")
+# the cleanup helper through a local bound to the bound method, called only for some codes
+M('c17-k2-cleanup-bound-method-alias-conditional', 'C17', 'R3', APP,
+  "        await self._ws_cleanup_on_error(ws)\n\n    if TYPE_CHECKING:",
+  "        cleanup = self._ws_cleanup_on_error\n        if error.code != 1000:\n            await cleanup(ws)\n\n    if TYPE_CHECKING:", also=('C18',))
